@@ -55,7 +55,7 @@ def mc_plan(quick):
             ("1 link, 4 operations, every interleaving", dict(conns=[1], le=[1], cids=[1, 2], maxops=4, kinds=["le"], atomic=False), False),
             ("1 link, 3 operations, every interleaving, enhanced requests", dict(conns=[1], le=[1], cids=[1, 2], maxops=3, kinds=["le", "ecred"], atomic=False), True),
             ("2 links, 3 operations, every interleaving", dict(conns=[1, 2], le=[1, 2], cids=[1, 2], maxops=3, kinds=["le"], atomic=False), False),
-            ("2 links (LE + classic), 4 operations at quiescence", dict(conns=[1, 2], le=[1], cids=[1, 2], maxops=4, kinds=["le", "classic"], atomic=True), True),
+            ("2 links (LE + classic), 3 operations at quiescence", dict(conns=[1, 2], le=[1], cids=[1, 2], maxops=3, kinds=["le", "classic"], atomic=True), True),
         ]
     return [
         ("1 link, all history lengths, operations at quiescence", dict(conns=[1], le=[1], cids=[1, 2], maxops=0, kinds=["le", "ecred"], atomic=True), False),
@@ -66,7 +66,7 @@ def mc_plan(quick):
         ("2 links, 3 operations, every interleaving", dict(conns=[1, 2], le=[1, 2], cids=[1, 2], maxops=3, kinds=["le"], atomic=False), True),
         ("2 links, 4 operations, every interleaving", dict(conns=[1, 2], le=[1, 2], cids=[1, 2], maxops=4, kinds=["le"], atomic=False), False),
         ("2 links (LE + classic), 4 operations at quiescence", dict(conns=[1, 2], le=[1], cids=[1, 2], maxops=4, kinds=["le", "classic"], atomic=True), True),
-        ("2 links (LE + classic), 6 operations at quiescence", dict(conns=[1, 2], le=[1], cids=[1, 2], maxops=6, kinds=["le", "classic"], atomic=True), False),
+        ("2 links (LE + classic), 5 operations at quiescence", dict(conns=[1, 2], le=[1], cids=[1, 2], maxops=5, kinds=["le", "classic"], atomic=True), False),
     ]
 
 
@@ -120,7 +120,7 @@ def collect_mc(rep, futs):
         name, kw, res, graph = f.result()
         if res["violation"]:
             raise tlc.TlcError(f"ChanTable.tla [{name}] violates {res['violation']} in the model itself:\n{res['out'][-2500:]}")
-        tlc.require_actions(res, MC_ACTIONS, f"ChanTable [{name}]")
+        tlc.require_actions(res, [a for a in MC_ACTIONS if a != "Drain" or set(kw["kinds"]) & {"le", "ecred"}], f"ChanTable [{name}]")
         rep.add_mc(f"L2cap/ChanTable.tla [{name}]", res, kw)
         _tick(rep, "model_checking_cpu_s", res["wall_s"])
         if graph is not None:
@@ -181,6 +181,17 @@ def canonical(rng):
     out += special(rng)
     # "identifiers of closed channels can be used again": one channel stays open while another is closed and opened again, more
     # often than the dynamic CID range is long (an allocator that never goes back runs out although one or two channels are open)
+    # the peer closes its end of a channel this side no longer has (aborted, or its connect given up) while this side opens a new
+    # channel; then the link drops: whatever the two ends made of it, every call has ended
+    for side, other in (("c", "p"), ("p", "c")):
+        for first in ([{"k": "open", "s": side, "c": 1, "kind": "le", "psm": "srv"}],
+                      [{"k": "open", "s": side, "c": 1, "kind": "le", "psm": "srv"}, {"k": "cancel", "s": side, "c": 1}]):
+            steps = [first]
+            if len(first) == 1:
+                steps.append([{"k": "abort", "s": side, "c": 1, "i": 0}])
+            steps += [[{"k": "close", "s": other, "c": 1, "i": 0}, {"k": "open", "s": side, "c": 1, "kind": "le", "psm": "srv"}],
+                      [{"k": "down", "c": 1}], [{"k": "up", "c": 1}], [{"k": "open", "s": side, "c": 1, "kind": "le", "psm": "srv"}]]
+            out.append(_decorate(steps, 0, rng, ["le", "le"], ["bumble", "bumble"]))
     for peers in (["bumble", "bumble"], ["puppet", "puppet"]):
         steps = [[{"k": "open", "s": "c", "c": 1, "kind": "le", "psm": "srv"}], [{"k": "open", "s": "c", "c": 1, "kind": "le", "psm": "srv"}]]
         for _ in range(66):
@@ -430,7 +441,7 @@ def run(ctx, rep):
     pool = ThreadPoolExecutor(6 if quick else 4)
     futs, ctl = start_model_checking(ctx, pool)
     # while TLC works: the histories that need no graph
-    scen = canonical(ctx.rng) + generated(ctx.rng, 80 if quick else 3000, 8 if quick else 12)
+    scen = canonical(ctx.rng) + generated(ctx.rng, 80 if quick else 1000, 8 if quick else 12)
     t1 = time.time()
     results = execute(scen, procs)
     _tick(rep, "execution_s", time.time() - t1)
@@ -439,7 +450,7 @@ def run(ctx, rep):
     collect_controls(rep, ctl)
     pool.shutdown()
     _tick(rep, "model_checking_wall_s", time.time() - t0)
-    tours = tour_scenarios(ctx, rep, graphs, 200 if quick else 5000)
+    tours = tour_scenarios(ctx, rep, graphs, 200 if quick else 2000)
     t1 = time.time()
     results2 = execute(tours, procs)
     procs.close()
